@@ -178,6 +178,7 @@ HInit(T, e) ==
   [en0      |-> [v \in DOMAIN T.veh |-> T.veh[v].en],
    cap      |-> PairsToFn(e.caps),
    dt       |-> e.dt,
+   dtc      |-> IF "dt_cfg" \in DOMAIN e THEN e.dt_cfg ELSE e.dt,      \* the CONFIGURED step length (C15)
    cancel   |-> e.cancel,
    builtin  |-> IF "builtin" \in DOMAIN e THEN e.builtin ELSE FALSE,
    vrank    |-> IF "vrank" \in DOMAIN e THEN PairsToFn(e.vrank) ELSE <<>>,
@@ -435,7 +436,7 @@ MonStep(Hh, B, T, e) ==
   \cup (IF Has("C06") THEN (IF upd THEN C06_Move(B, T, e.v, Hh.dt, IF "num" \in DOMAIN e /\ "rt_now" \in DOMAIN e.num THEN e.num.rt_now ELSE <<>>) \cup C06_Frame(B, T, TRUE, e.v) \cup C06_Arrived(T, Hn.arrived, e.v)
                                        \cup (IF "num" \in DOMAIN e THEN C06_Odo(B, T, e.v, e.num) ELSE {})
                             ELSE C06_Frame(B, T, FALSE, "")) ELSE {})
-  \cup (IF Has("C15") THEN C15_Step(B, T, e.ev, Hh.dt) ELSE {})
+  \cup (IF Has("C15") THEN C15_Step(B, T, e.ev, Hh.dtc) ELSE {})
   \cup (IF Has("C11") THEN C11_Step(Hh, B, T, e) ELSE {})
   \cup (IF Has("C08") THEN C08_Immobile(B, T) \cup (IF "idx" \in DOMAIN e THEN C08_Snapshot(T, e.idx) ELSE {}) ELSE {})
   \cup (IF Has("C20") /\ e.ev = "drivers" THEN C20_Drivers(B, T, Hh.sched, Reports(e, "driver_schedule_event")) ELSE {})
